@@ -187,11 +187,6 @@ def gen_scenario(rng, sid, dialect_p=0.3, wide=False) -> Scenario:
     if rng.random() < dialect_p:
         sc.dialect = rng.choice([True, False, "unset"]) if not wide else rng.choice(["unset", "strategy"])
     sc.lazy = rng.random() < (0.5 if wide else 0.3)
-    if not wide and sc.dialect is not None:
-        # lazy_compilation + call dialect: the first call with `dialect=` compiles nested plain classes only into their
-        # dialect cache (known finding C15/lazy-dialect-first-call; compile ORDER is not in the Coq model): the
-        # combination is generated in the wide (oracle-only) scenarios
-        sc.lazy = False
     sc.flags = [f for f in WIDE_FLAGS if rng.random() < 0.3] if wide else []
     n = rng.randint(2, 6)
     for i in range(n):
